@@ -599,7 +599,7 @@ class Body:
             k = op['k']
             if 'fn' in k:
                 return Origin('const', value='fn:' + norm(k['fn']), ty=k['ty'], fn=norm(k['fn']))
-            v = k.get('int', k.get('v'))
+            v = k.get('v') if k.get('ty') == 'char' else k.get('int', k.get('v'))
             return Origin('const', value=v, ty=k['ty'])
         place = op.get('c') or op.get('m')
         if place is None:
